@@ -11,6 +11,13 @@ generate_derivative_operators
       - `if <and/or/not expression over flags>:` blocks, nested
     -> `program : List Asg`, the assignments in execution order, each with the conjunction of the guards enclosing it.
   * `D = D / <expr in dx, dy>` after the loop                                       -> `scaleDen`
+  * every statement *before* the loop must be one of: argument validation (`np.asarray`, `if …: raise TypeError`),
+    `num_cells = voxel_vertices.shape[0]`, `D = np.zeros((num_cells, num_cells))`,
+    `cell_centres = np.mean(voxel_vertices, axis=1)`, `cell_sizes = np.diff(cell_centres, axis=0)` and the chain that
+    defines `dx`, `dy` from it, built from `v[:, k]`, `v[v != 0]`, `abs(v)`, `np.min(v)`, `np.max(v)`, `.item()`
+                                                                                    -> `stepDx`, `stepDy : SExpr`
+    (interpreted by `Model/Admt.lean: extractSteps`; `steps_extracted_origin_independent` is proved over them);
+    every statement after the loop must be a scaling, the `operators = dict(…)` packaging or the return.
 calculate_admt
   * straight-line assignments of element-wise arithmetic (+ - * / **2, unary minus, integer constants),
     `np.full(x.shape, c)` (constant vector), `derivative_operators["Dx"]` (operator alias), `Op @ vector`
@@ -201,10 +208,98 @@ def stencil_program(fn):
                 and isinstance(st.value, ast.BinOp) and isinstance(st.value.op, ast.Div)
                 and isinstance(st.value.left, ast.Name) and st.value.left.id == st.targets[0].id):
             scales[st.targets[0].id] = Expr({'dx', 'dy'}).tr(st.value.right)
+        elif (isinstance(st, ast.Assign) and isinstance(st.targets[0], ast.Name) and st.targets[0].id == 'operators'
+              and ast.unparse(st.value) == 'dict(Dx=Dx, Dy=Dy, Dxx=Dxx, Dyy=Dyy, Dxy=Dxy)'):
+            continue
+        elif isinstance(st, ast.Return) and ast.unparse(st.value) == 'operators':
+            continue
+        else:
+            raise Unrecognised('statement after the loop, line %d: %s' % (st.lineno, ast.unparse(st)[:60]))
     if set(scales) != set(OPS):
         raise Unrecognised('scalings found for %s only' % sorted(scales))
-    return prog, scales
+    return prog, scales, step_expressions(fn, loop)
 
+
+
+# --------------------------------------------------------------------------------- extraction of dx, dy (pre-loop)
+def _is_call(e, name):
+    return isinstance(e, ast.Call) and ast.unparse(e.func) == name
+
+
+def step_expressions(fn, loop):
+    """symbolic evaluation of the statements before the cell loop; returns (stepDx, stepDy) as Lean `SExpr` text"""
+    vv = fn.args.args[0].arg
+    env = {}                 # name -> ('C',) centres | ('D',) diff of centres | ('V', lean) | ('S', lean)
+
+    def vexpr(e):
+        if isinstance(e, ast.Name):
+            if e.id in env and env[e.id][0] == 'V':
+                return env[e.id][1]
+            raise Unrecognised('step extraction: %s is not a difference vector (line %d)' % (e.id, e.lineno))
+        if _is_call(e, 'abs') or _is_call(e, 'np.abs') or _is_call(e, 'np.absolute'):
+            if len(e.args) == 1 and not e.keywords:
+                return '(.abs %s)' % vexpr(e.args[0])
+        if isinstance(e, ast.Subscript):
+            base, sl = e.value, e.slice
+            # cell_sizes[:, k]
+            if (isinstance(base, ast.Name) and env.get(base.id, ('',))[0] == 'D' and isinstance(sl, ast.Tuple)
+                    and len(sl.elts) == 2 and isinstance(sl.elts[0], ast.Slice)
+                    and sl.elts[0].lower is None and sl.elts[0].upper is None and sl.elts[0].step is None
+                    and isinstance(sl.elts[1], ast.Constant) and sl.elts[1].value in (0, 1)):
+                return '(.diffCol %d)' % sl.elts[1].value
+            # v[v != 0]
+            if (isinstance(sl, ast.Compare) and len(sl.ops) == 1 and isinstance(sl.ops[0], ast.NotEq)
+                    and isinstance(sl.comparators[0], ast.Constant) and sl.comparators[0].value == 0
+                    and not isinstance(sl.comparators[0].value, bool)
+                    and ast.dump(sl.left) == ast.dump(base)):
+                return '(.nonzero %s)' % vexpr(base)
+        raise Unrecognised('step extraction: vector expression at line %d: %s' % (e.lineno, ast.unparse(e)))
+
+    def sexpr(e):
+        if isinstance(e, ast.Call) and isinstance(e.func, ast.Attribute) and e.func.attr == 'item' and not e.args:
+            return sexpr(e.func.value)
+        for nm, k in (('np.min', '.min'), ('np.amin', '.min'), ('np.max', '.max'), ('np.amax', '.max')):
+            if _is_call(e, nm) and len(e.args) == 1 and not e.keywords:
+                return '(%s %s)' % (k, vexpr(e.args[0]))
+        raise Unrecognised('step extraction: scalar expression at line %d: %s' % (e.lineno, ast.unparse(e)))
+
+    for st in fn.body[:fn.body.index(loop)]:
+        if isinstance(st, ast.Expr) and isinstance(st.value, ast.Constant):
+            continue                                                       # docstring
+        if isinstance(st, ast.If):                                         # argument validation
+            if all(isinstance(b, ast.Raise) for b in st.body) and not st.orelse:
+                continue
+            raise Unrecognised('statement before the loop, line %d' % st.lineno)
+        if not (isinstance(st, ast.Assign) and len(st.targets) == 1 and isinstance(st.targets[0], ast.Name)):
+            raise Unrecognised('statement before the loop, line %d: %s' % (st.lineno, ast.unparse(st)[:60]))
+        name, v = st.targets[0].id, st.value
+        txt = ast.unparse(v)
+        if name == vv and txt == 'np.asarray(%s)' % vv:
+            continue
+        if name == 'num_cells' and txt == '%s.shape[0]' % vv:
+            continue
+        if name in OPS and txt == 'np.zeros((num_cells, num_cells))':
+            continue
+        if txt == 'np.mean(%s, axis=1)' % vv:
+            env[name] = ('C',)
+            continue
+        if (_is_call(v, 'np.diff') and len(v.args) == 1 and isinstance(v.args[0], ast.Name)
+                and env.get(v.args[0].id, ('',))[0] == 'C'
+                and [(k.arg, ast.unparse(k.value)) for k in v.keywords] == [('axis', '0')]):
+            env[name] = ('D',)
+            continue
+        if name in (vv, 'num_cells') or name in OPS:
+            raise Unrecognised('unexpected definition of %s at line %d' % (name, st.lineno))
+        try:
+            env[name] = ('V', vexpr(v))
+        except Unrecognised:
+            env[name] = ('S', sexpr(v))
+    out = []
+    for nm in ('dx', 'dy'):
+        if env.get(nm, ('',))[0] != 'S':
+            raise Unrecognised('%s is not defined as a min/max of centre differences before the loop' % nm)
+        out.append(env[nm][1])
+    return out
 
 # --------------------------------------------------------------------------------------------- arithmetic -> Lean
 class Expr:
@@ -360,6 +455,10 @@ def program : List Asg := [
 %(prog)s
 ]
 
+/-- `dx`, `dy` as the statements before the loop define them from `np.diff(np.mean(voxel_vertices, axis=1), axis=0)` -/
+def stepDx : SExpr := %(stepdx)s
+def stepDy : SExpr := %(stepdy)s
+
 section
 variable {α : Type} [Add α] [Sub α] [Mul α] [Div α] [Neg α] [NatCast α]
 
@@ -409,7 +508,7 @@ def _int(n):
 
 def generate(src_path=None):
     tree = ast.parse(open(src_path or SRC).read())
-    prog, scales = stencil_program(_fn(tree, 'generate_derivative_operators'))
+    prog, scales, (step_dx, step_dy) = stencil_program(_fn(tree, 'generate_derivative_operators'))
     f = admt_formulas(_fn(tree, 'calculate_admt'))
     rows = []
     for guards, op, pos, val, line in prog:
@@ -442,9 +541,9 @@ def generate(src_path=None):
         prenames=', '.join(f['pre']),
         entry=f['entry'], final=f['final'],
         mvlist=', '.join('(.%s, "%s")' % (k[0], k[1]) for k, _ in mv_order),
-        slot=f['slot'])
+        slot=f['slot'], stepdx=step_dx, stepdy=step_dy)
     info = dict(assignments=len(prog), lets=len(f['lets']), matvecs=[list(k) for k, _ in mv_order], slot=f['slot'],
-                pre=f['pre'], denominators=len(f['dens']))
+                pre=f['pre'], denominators=len(f['dens']), steps=[step_dx, step_dy])
     return text, info
 
 
